@@ -143,6 +143,13 @@ func (g *gen) enumerate() []Case {
 		}
 	}
 
+	// ---- paths in vuego's own syntax as whole expressions, every environment
+	for env := 0; env < nEnvs; env++ {
+		for _, x := range ownPaths {
+			out = append(out, pathCase(env, x))
+		}
+	}
+
 	// ---- strings with blanks against literals spelled with the same / different blanks
 	for env := 0; env < nEnvs; env++ {
 		for i, x := range blankPaths {
